@@ -4,7 +4,7 @@ import core
 from core import hx, gen_mag
 
 ID = "C17"
-READY = False
+READY = True
 ORACLE = "c17"
 HARNESS_BIN = "c17"
 NCASES = {"quick": 20000, "thorough": 200000}
@@ -13,15 +13,18 @@ CONFIGS = ["default", "release"]
 SHRINK = True
 
 LEVEL_TEXT = ("Machine-checked Coq theorems about an abstract machine that transcribes integer/src/buffer.rs and repr.rs (every assert!, "
-              "debug_assert! and unsafe-block precondition is an explicit guard, the allocator is a ghost heap) and the buffer handling of "
-              "construction, clone, clone_from, drop, add, sub, mul, shl, shr, set_bit, clear_bit in all call forms: the representation "
-              "invariant holds initially and after every operation, no guard fails from an invariant state, every block is freed exactly "
-              "once and nothing leaks, for all finite histories. The real code is tied to the machine by a correspondence run under a "
-              "guard/counting allocator: layout of every value after every step, allocation ledger, values.")
+              "debug_assert! and unsafe-block precondition is an explicit guard, the allocator is a ghost heap): Repr::from_buffer - the exit of "
+              "every arithmetic operation - establishes the representation invariant from any owned buffer; clone, clone_from between values "
+              "of any sizes (also statics), ones, construction, drop, move, swap, neg, abs preserve the invariant of the whole pool, fail no "
+              "guard, free every block exactly once and leak nothing - lifted by induction to all finite histories of these steps. The real "
+              "code is tied to the machine by a correspondence run under a guard/counting allocator: layout of every value after every step, "
+              "allocation ledger, values, in two build profiles.")
 LEVEL_NOTE = ("PARTIAL: the theorems are about the abstract machine, not about the Rust unsafe blocks themselves (pointer arithmetic, transmute "
               "layout equality, realloc are outside every theorem; the guard allocator with red zones, poisoning and a quarantine searches "
-              "for their failures). Word contents enter at value level. div, gcd, pow, sqrt, bit-and/or/xor, conversions and the scratch "
-              "bump allocator of memory.rs are only compared (invariant + ledger + value after every step), not modelled.")
+              "for their failures). The buffer handling of add, sub, mul, shl, shr, set_bit, clear_bit (all call forms) is transcribed in the "
+              "machine and its exact capacities are compared on every run, but the history theorem does not cover these steps (only their "
+              "exit from_buffer and push_resizing/ensure_capacity are proved). div, gcd, pow, sqrt, and/or/xor, conversions and the scratch "
+              "bump allocator of memory.rs are only compared (invariant + ledger + value after every step). Word contents enter at value level.")
 TECHNIQUE = "Coq proof over an abstract storage machine (invariant by induction over histories) + extracted-machine correspondence run under a guard allocator"
 RULE = ("a case is a history of 1-40 steps over a pool of 4 values; steps = constructors (from_words with padding, bytes, primitives, ones, "
         "statics) x arithmetic/bit/shift operations in every call form (vv vr rv rr and the assigning forms, also with both operands the same "
@@ -37,7 +40,7 @@ TRUSTED_BASE = [
     "the transcription of buffer.rs / repr.rs / the buffer handling of add_ops, mul_ops, shift_ops, bits.rs into coq/theories/Int/StorageModel.v (by hand; compared on every run: exact capacities)",
     "extraction: ExtrOcamlBasic + ExtrOcamlZBigInt + coq/extract/FastZ.v; OCaml 4.13.1 + zarith; oracle/common.ml, oracle/driver_c17.ml (the value semantics of the steps are zarith arithmetic in the driver)",
     "Rust harness harness/src/bin/c17.rs incl. its guard/counting #[global_allocator] (red zones, poisoning, quarantine, realloc always moves); verif_hooks::repr_layout_ibig",
-    "the unsafe blocks of buffer.rs/repr.rs/memory.rs do what their guards assume (NOT proved; searched by the guard allocator, and by Miri in the thorough tier when available)",
+    "the unsafe blocks of buffer.rs/repr.rs/memory.rs do what their guards assume (NOT proved; searched by the guard allocator only - a Miri support run is not implemented)",
 ]
 ASSUMPTIONS = [
     "values stay far below Buffer::MAX_CAPACITY words (2^58): the AllocateTooMuch / capacity-overflow outcomes are not exercised",
